@@ -94,8 +94,9 @@ impl BlockchainSyncState {
                 };
 
                 let already_exists = blocks_to_fetch_from_peer.iter().any(|b| {
-                    let exists =
-                        b.block_hash == block_data.block_hash && b.block_id == block_data.block_id;
+                    // the hash identifies the block. the same hash announced under another id is
+                    // still the same block and is not fetched twice
+                    let exists = b.block_hash == block_data.block_hash;
                     if exists {
                         trace!(
                             "block : {:?}-{:?} already in the queue to be fetched with status : {:?} / retry_count : {:?}",
